@@ -22,9 +22,9 @@
 const ELEM *g_in;   /* the input range [g_in, g_in + g_n) */
 size_t g_n, g_i;    /* its length; number of input elements consumed so far */
 /* slot j: the constructed prefix holds the input prefix, the rest of the storage is RAW; input element j is LIVE */
-#define SPEC_INV(j) (((j) >= CAP || ((j) < self->m_size ? (self->_data[j].g_state == ELEM_LIVE && self->_data[j].v == g_in[j].v) \
-                                                         : self->_data[j].g_state == ELEM_RAW)) && \
-                     ((j) >= g_n || g_in[j].g_state == ELEM_LIVE))
+#define SPEC_INV(j) (((j) >= CAP || ((j) < self->m_size ? (ELEM_ST(&self->_data[j]) == ELEM_LIVE && ELEM_V(&self->_data[j]) == ELEM_V(&g_in[j])) \
+                                                         : ELEM_ST(&self->_data[j]) == ELEM_RAW)) && \
+                     ((j) >= g_n || ELEM_ST(&g_in[j]) == ELEM_LIVE))
 #define C14_HAVE_SV
 #include "cxx/sv.c"
 #include "c14_harness.h"
@@ -41,15 +41,15 @@ void harness(void)
     struct static_vector v;
     c14_sv_fresh(&v);
     ELEM *storage = v._data;
-    ELEM in_k = {0, 0};
+    ELEM in_k; ELEM_SET(&in_k, ELEM_RAW, 0);
     if (k < n) in_k = in[k];
 
     static_vector_ctor_range(&v, in, in + n);
 
     V(__CPROVER_assert(v._data == storage, "storage pointer untouched");)
     V(__CPROVER_assert(v.m_size == C14_MIN(n, cap) && SV_SIZE_OK(&v), "size == min(L, N)");)
-    if (k < cap && k < n) V(__CPROVER_assert(v._data[k].v == in_k.v, "element k equals input[k] (prefix kept)");)
-    if (k < n) V(__CPROVER_assert(in[k].v == in_k.v && in[k].g_state == in_k.g_state, "the input is not modified");)
+    if (k < cap && k < n) V(__CPROVER_assert(ELEM_V(&v._data[k]) == ELEM_V(&in_k), "element k equals input[k] (prefix kept)");)
+    if (k < n) V(__CPROVER_assert(ELEM_V(&in[k]) == ELEM_V(&in_k) && ELEM_ST(&in[k]) == ELEM_ST(&in_k), "the input is not modified");)
     if (k < cap) L(__CPROVER_assert(SV_SLOT_OK(&v, k), "SV: slots below m_size LIVE, the others RAW");)
     CANARY("range ctor end reachable");
 }
